@@ -3,7 +3,7 @@
    positive / N / Z / nat stay the extracted inductives. *)
 Require Extraction.
 Require Import ExtrOcamlBasic.
-From DMCG Require Import IdentInst Escape EscapeTables Relative SortModels Plumbing PlumbingTables Version FieldSem EnumModel TypeHint Imports Resolver Gql Constraints Schema KeepOrder Infer HintImports HintImportTable.
+From DMCG Require Import IdentInst Escape EscapeTables Relative SortModels Plumbing PlumbingTables Version FieldSem EnumModel TypeHint Imports Resolver Gql Constraints Schema KeepOrder Infer HintImports HintImportTable Layout.
 Cd "extract".
 Extraction "Model.ml" U0 get_valid_name field_name_and_alias camel_to_snake s2uc
   translate enum_table regex_table tdkey_table lex_sq lex_raw lex_tq doc_enc raw_safe comment_ok
@@ -16,5 +16,5 @@ Extraction "Model.ml" U0 get_valid_name field_name_and_alias camel_to_snake s2uc
   get_unique_name assign_unique grp apply_rel
   field_dt field_required
   Constraints.cnormalize Constraints.ctranslate Constraints.sat_model Constraints.sat_schema
-  Schema.gen_text Schema.verdicts KeepOrder.keep_order Infer.infer_text Infer.infer_gen_text Infer.infer_accepts HintImports.imports_of HintImports.needs HintImportTable.hint_import_table.
+  Schema.gen_text Schema.verdicts KeepOrder.keep_order Infer.infer_text Infer.infer_gen_text Infer.infer_accepts HintImports.imports_of HintImports.needs HintImportTable.hint_import_table Layout.layout Layout.layout_sound.
 Cd "..".
